@@ -158,7 +158,8 @@ def run(ctx):
                  ("C04-R7", "parallel arrays of a storage are reset together"),
                  ("C04-R8", "get / get_mut / shared_get_mut of a storage locate the slot the same way"),
                  ("C04-R9", "membership observers (count, is_empty, mask) are computed from the mask"),
-                 ("C04-R10", "no storage narrows the entity index it is keyed on")]:
+                 ("C04-R10", "no storage narrows the entity index it is keyed on"),
+                 ("C04-R11", "a two-way redirect table never compares a dense slot with an entity index")]:
         ctx.rule(r, t)
     ctx.exception("Drop impls of rollback guards (types every construction of which is mem::forget-ed on all normal paths; today: RemoveOnDrop in not_present_insert)",
                   "R1: the destructor only runs while unwinding between the raw insert and the forget; it undoes an insert whose mask update unwound")
@@ -174,6 +175,7 @@ def run(ctx):
         r5(ctx, facts)
         r6(ctx, facts)
         r7(ctx, facts)
+        r11(ctx, facts)
         r8(ctx, facts)
         r9(ctx, facts)
         _identity.rule(ctx, facts, "C04-R10", lambda b: b.path.lstrip("<").startswith(("storage::", "changeset::")), 6,
@@ -556,3 +558,81 @@ def r9(ctx, facts):
                    "does not depend on the storage's mask" if not via_mask else "also depends on other storage state",
                    (" (fields: %s)" % other) if other else ""))
     ctx.floor("C04-R9", "handle-less membership observers of Storage", n, 2)
+
+
+def r11(ctx, facts):
+    """Units in a two-way redirect table (the dense vector storage): one array is indexed by ENTITY INDEX and holds DENSE SLOTS (`data_id`: its
+    elements are MaybeUninit<Index>), the others are indexed by dense slot and hold entity indices / components.  Both units are `u32`, so the
+    compiler accepts a comparison between them; it is never meaningful (seeds C06-k1 and C16-k1, two agents independently: the tail fix-up
+    `data_id[last] = did` put under `if did != last` - a slot compared with an entity index - instead of `id != last`).  Rule: in the
+    methods of such a storage no `==` / `!=` / `<` .. compares a value that derives only from reads of the slot-holding array with a value that
+    derives only from the method's index parameter or from reads of an id-holding array.  A value of mixed descent is not judged."""
+    n = 0
+    for im in facts.impls_of(US):
+        adt = facts.adts.get(base_ty(im["self_ty"]))
+        if not adt:
+            continue
+        fields = {f["name"]: f["ty"] for v in adt["variants"] for f in v["fields"]}
+        slot_tables = {f for f, ty in fields.items() if "MaybeUninit<u32>" in ty.replace(" ", "")}
+        id_tables = {f for f, ty in fields.items() if f not in slot_tables and ty.replace(" ", "").startswith("std::vec::Vec<u32")}
+        if not slot_tables or not id_tables:
+            continue
+        n += 1
+        for mname, mpath in sorted(im["items"].items()):
+            b = facts.body(mpath)
+            if not b:
+                continue
+
+            def unit(o, depth=0):
+                """'slot' | 'id' | None, following the value structurally (never through the INDEX an element was read with)"""
+                if depth > 6 or not o:
+                    return None
+                if o[0] == "param":
+                    return "id" if (o[1] == 2 and b.ltype.get(2) == "u32" and not o[2]) else None
+                if o[0] == "op" and o[1] in ("Cast", "IntToInt") and o[2]:
+                    return unit(o[2][0], depth + 1)
+                if o[0] == "phi":
+                    us = {unit(x, depth + 1) for x in o[2]}
+                    return us.pop() if len(us) == 1 else None
+                if o[0] == "call":
+                    t = b.term(o[1])
+                    nm = t["callee"].get("name")
+                    if not t["args"]:
+                        return None
+                    if nm in ("assume_init", "assume_init_read", "assume_init_ref", "unwrap", "expect", "unwrap_unchecked", "copied", "cloned", "clone", "deref",
+                              "read", "into", "from", "try_from", "try_into"):
+                        return unit(b.arg_origin(o[1], 0), depth + 1)
+                    elem = nm in ("get", "get_unchecked", "get_unchecked_mut", "get_mut", "index", "index_mut", "last", "last_mut", "first", "pop",
+                                  "swap_remove", "remove")
+                    length = nm in ("len", "capacity")
+                    if not (elem or length):
+                        return None
+                    ro = b.arg_origin(o[1], 0)
+                    if ro[0] == "call" and b.term(ro[1])["callee"].get("name") in TRANSPARENT_NAMES and b.term(ro[1])["args"]:
+                        ro = b.arg_origin(ro[1], 0)
+                    us = set()
+                    for r in b.roots(ro):
+                        if r[0] == "param" and r[1] == 1 and r[2]:
+                            if r[2][0] in slot_tables:
+                                us.add("slot" if elem else "id")
+                            elif r[2][0] in id_tables or "Vec<" in fields.get(r[2][0], ""):
+                                us.add("id" if elem else "slot")
+                    return us.pop() if len(us) == 1 else None
+                return None
+            bad = []
+            for bid, blk in b.blocks.items():
+                for st in blk["stmts"]:
+                    rv = st["rv"]
+                    if rv["k"] == "binop" and rv.get("op") in ("Eq", "Ne", "Lt", "Le", "Gt", "Ge") and len(rv["ops"]) == 2:
+                        u = [unit(b.operand_origin(x)) for x in rv["ops"]]
+                        if set(u) == {"slot", "id"}:
+                            bad.append(st.get("line"))
+            for bb, t in b.calls():
+                if (t["callee"].get("path") or "") in ("std::cmp::PartialEq::eq", "std::cmp::PartialEq::ne") and len(t["args"]) == 2:
+                    u = [unit(b.arg_origin(bb, 0)), unit(b.arg_origin(bb, 1))]
+                    if set(u) == {"slot", "id"}:
+                        bad.append(t.get("line"))
+            ctx.ob("C04-R11", "%s::%s compares like with like" % (base_ty(im["self_ty"]), mname), not bad, b.loc(),
+                   "" if not bad else "a dense slot (read from %s) is compared with an entity index at line(s) %s: the two agree only by coincidence, and the "
+                   "branch taken then leaves the redirect table inconsistent with the data" % (sorted(slot_tables), bad), nontrivial=(mname in ("remove", "insert")))
+    ctx.floor("C04-R11", "storages with a two-way redirect table", n, 1)
